@@ -40,16 +40,16 @@ def from_callback_(
                         return
 
                     observer.on_next(results)
+                elif len(results) == 1:
+                    observer.on_next(results[0])
                 else:
-                    if len(results) <= 1:
-                        observer.on_next(*results)
-                    else:
-                        observer.on_next(results)
+                    observer.on_next(results)
 
-                    observer.on_completed()
+                observer.on_completed()
 
-            arguments.append(handler)
-            func(*arguments)
+            # Do not mutate the shared argument list: every subscription
+            # passes its own handler.
+            func(*arguments, handler)
             return Disposable()
 
         return Observable(subscribe)
